@@ -16,8 +16,16 @@ VAL_SEP = " = "
 PARSING_FAILED_COMMENT = "% WARNING Parsing failed for the following {n} lines."
 
 
+def _protect_trailing_backslash(text: str) -> str:
+    """A backslash directly before a delimiter makes the splitter take that delimiter for an escaped,
+    literal character when the text is parsed again; a blank in between is dropped again on parsing."""
+    if isinstance(text, str) and text.endswith("\\"):
+        return text + " "
+    return text
+
+
 def _treat_entry(block: Entry, bibtex_format) -> List[str]:
-    res = ["@", block.entry_type, "{", block.key, ",\n"]
+    res = ["@", block.entry_type, "{", _protect_trailing_backslash(block.key), ",\n"]
     field: Field
     for i, field in enumerate(block.fields):
         res.append(bibtex_format.indent)
@@ -58,7 +66,7 @@ def _treat_impl_comment(block: ImplicitComment, bibtex_format: "BibtexFormat") -
 
 
 def _treat_expl_comment(block: ExplicitComment, bibtex_format: "BibtexFormat") -> List[str]:
-    return ["@comment{", block.comment, "}\n"]
+    return ["@comment{", _protect_trailing_backslash(block.comment), "}\n"]
 
 
 def _treat_failed_block(block: ParsingFailedBlock, bibtex_format: "BibtexFormat") -> List[str]:
